@@ -304,10 +304,30 @@ def _driver_passes_options_unchanged(ctx, R):
               'supplied nothing' % (stmt_text(ctx.repo.enclosing_stmt(writes[0])) if writes else ''))
 
 
+def _unused_overrides_from_live_options(ctx, R):
+    """the report's "unused / overridden options" notes are computed on the election's live Options object when the report is made:
+    options consumed after the count (dump, json, report in Droop.main) are then known to be used.  A snapshot taken at the first
+    action (the record's copy of the layers) is stale by then."""
+    n = 0
+    for f in ctx.repo.funcs.values():
+        if not f.module.name.startswith('droop') or f.module.name == 'droop.options':
+            continue
+        for c in f.own_nodes():
+            if isinstance(c, ast.Call) and isinstance(c.func, ast.Attribute) and c.func.attr in ('unused', 'overrides') and not c.args:
+                n += 1
+                ctx.check(ctx.canon(c.func.value, f) == 'E.options', R, c, f,
+                          'the unused / overridden option notes are computed on the live options of the election',
+                          'E.options.%s()' % c.func.attr,
+                          '`%s` is not called on the election\'s own Options object: options consumed after the snapshot (dump, json, report) '
+                          'are reported as unused' % unparse(c), nontrivial=False)
+    ctx.floor(R, 'unused()/overrides() call sites', n, 2)
+
+
 def r36_construction_order(ctx):
     R = 'R36'
     repo = ctx.repo
     _driver_passes_options_unchanged(ctx, R)
+    _unused_overrides_from_live_options(ctx, R)
     init = repo.func('droop.election.Election.__init__')
     cfg = cfg_of(init)
 
@@ -355,6 +375,19 @@ def r36_construction_order(ctx):
                   R, b.ast, init, 'construction order: %s before %s' % (da, db),
                   'line %d dominates line %d' % (a.line, b.line), '%s (line %d) does not precede %s (line %d) on every path'
                   % (da, a.line, db, b.line))
+    # nothing interprets an option value before the rule has had its say: between the merge and rule.options() the only things
+    # done with the options object are update / parse and reading the rule NAME.  (A value the rule is going to override by force
+    # must not be able to stop - or alter - the count beforehand.)
+    pre = cfg.reach([cfg.entry], avoid=[rule_opts], include_start=True)
+    for x in pre:
+        for c in calls_at(x):
+            if isinstance(c.func, ast.Attribute) and (unparse(c.func.value) in ('options', 'self.options') or ctx.canon(c.func.value, init) == 'E.options'):
+                m_ = c.func.attr
+                okc = m_ in ('update', 'parse') or (m_ == 'getopt' and c.args and const_str(c.args[0]) == 'rule')
+                ctx.check(okc, R, c, init, 'before rule.options() runs, option values are only merged, and only the rule name is read',
+                          'options.%s(...)' % m_,
+                          '`%s` runs before the rule has forced its own values: a caller / ballot-file value that a statutory rule overrides can '
+                          'still change or refuse the count' % unparse(c), nontrivial=False)
     # the arithmetic class is chosen from the same Options object the rule processed
     acall = [c for c in calls_at(arith) if unparse(c.func).endswith('ArithmeticClass')][0]
     ctx.check(acall.args and unparse(acall.args[0]) == 'self.options', R, acall, init,
